@@ -358,28 +358,34 @@ def gen_int_programs(quick: bool):
 _SINGLE_FAILS: dict = {}
 
 
-def single_op_fails(name: str, ty: str = "i32") -> bool:
-    """does the one-op program `name(a, b)` / `name(a, a)` already return a wrong result?  (used to blame)"""
-    key = (name, ty)
-    if key not in _SINGLE_FAILS:
-        bad = False
-        for ops in (((name, "a", "b"),), ((name, "a", "a"),)):
-            L = Lowered(prog_text(len(used_args(ops)), ops, ty))
-            if L.prog is None:
-                continue
-            if not run_inputs(Stats(), L, "probe", [BOUNDARY] * len(L.in_types)):
-                bad = True
-        _SINGLE_FAILS[key] = bad
-    return _SINGLE_FAILS[key]
+def standalone(op) -> tuple:
+    """the op on its own: constants stay, every run time operand (argument or earlier result) becomes an argument"""
+    name, *operands = op
+    names: dict = {}
+    out = []
+    for o in operands:
+        if not isinstance(o, str) and o[0] == "c":
+            out.append(o)
+        else:
+            out.append(names.setdefault(o, "ab"[len(names)]))
+    return (name, *out)
+
+
+def single_op_fails(op1: tuple) -> bool:
+    """does the one-op program already return a wrong result on some boundary input?  (used to blame)"""
+    if op1 not in _SINGLE_FAILS:
+        n = len(used_args((op1,)))
+        L = Lowered(prog_text(n, (op1,)))
+        _SINGLE_FAILS[op1] = L.prog is not None and not run_inputs(Stats(), L, "probe", [BOUNDARY] * n)
+    return _SINGLE_FAILS[op1]
 
 
 def blame_of(ops) -> str:
-    names = [f"arith.{n}" for n, *_ in ops]
     if len(ops) > 1:
-        for n, *_ in ops:
-            if single_op_fails(n):
-                return f"arith.{n}"
-    return "+".join(names)
+        for op in ops:
+            if single_op_fails(standalone(op)):
+                return f"arith.{op[0]}"
+    return "+".join(f"arith.{n}" for n, *_ in ops)
 
 
 def _int_shard(task) -> Stats:
@@ -391,7 +397,8 @@ def _int_shard(task) -> Stats:
         L = Lowered(text)
         if L.status != "ok":
             st.outcomes[f"reported-failure:{L.asm}"] += 1
-            st.extra.setdefault("reported_failures", {}).setdefault(f"{L.asm}: {L.detail}", text)
+            rf = st.extra.setdefault("reported_failures", {})
+            rf[f"{L.asm}: {L.detail}"] = rf.get(f"{L.asm}: {L.detail}", 0) + 1
             continue
         st.outcomes[f"lowered:{family}"] += 1
         blame = "+".join(f"arith.{n}" for n, *_ in ops)
@@ -580,6 +587,8 @@ def fixed_programs(quick: bool) -> list[dict]:
         "iv+5": "%c5 = arith.constant 5 : i32\n      %m = arith.addi %i, %c5 : i32\n      %x = arith.xori %acc, %m : i32",
         "iv*4+7": ("%c4 = arith.constant 4 : i32\n      %c7 = arith.constant 7 : i32\n      %m = arith.muli %i, %c4 : i32\n"
                    "      %n = arith.addi %m, %c7 : i32\n      %x = arith.addi %acc, %n : i32"),
+        "iv*-2": "%cm2 = arith.constant -2 : i32\n      %m = arith.muli %i, %cm2 : i32\n      %x = arith.addi %acc, %m : i32",
+        "iv-3": "%cm3 = arith.constant -3 : i32\n      %m = arith.addi %i, %cm3 : i32\n      %x = arith.addi %acc, %m : i32",
         "sub-ub": "%m = arith.subi %i, %b : i32\n      %x = arith.addi %acc, %m : i32",
     }
     const_bounds = [(0, 5, 1), (0, 5, 2), (3, 3, 1), (5, 0, 1), (-2, 3, 1), (0, 10, 3), (1, 2 ** 11 + 1, 2 ** 11 - 1), (0, 1, 2 ** 11),
@@ -737,7 +746,8 @@ def _fixed_shard(task) -> Stats:
         L = Lowered(p["text"], p["ref_text"])
         if L.status != "ok":
             st.outcomes[f"reported-failure:{L.asm}"] += 1
-            st.extra.setdefault("reported_failures", {}).setdefault(f"{L.asm}: {L.detail}", p["label"])
+            rf = st.extra.setdefault("reported_failures", {})
+            rf[f"{L.asm}: {L.detail}"] = rf.get(f"{L.asm}: {L.detail}", 0) + 1
             continue
         st.outcomes[f"lowered:{p['label'].split(':')[0]}"] += 1
         blame = p["blame"]
@@ -1095,13 +1105,15 @@ def check_snippet(st: Stats, key: str, nodes, ret: int, variant: str, sample: bo
         x["canonicalize"].apply(x["ctx"], mod)
     except Exception as e:  # noqa: BLE001
         st.outcomes[f"canon:canonicalize-raises:{exc_name(e)}"] += 1
-        st.extra.setdefault("canonicalize_raises", {}).setdefault(exc_summary(e), f"{key} [{variant}]")
+        cr = st.extra.setdefault("canonicalize_raises", {})
+        cr[exc_summary(e)] = cr.get(exc_summary(e), 0) + 1
         return
     try:
         mod.verify()
     except Exception as e:  # noqa: BLE001
         st.outcomes[f"canon:output-does-not-verify:{exc_name(e)}"] += 1
-        st.extra.setdefault("canonicalize_raises", {}).setdefault("verify after: " + exc_summary(e), f"{key} [{variant}]")
+        cr = st.extra.setdefault("canonicalize_raises", {})
+        cr["verify after: " + exc_summary(e)] = cr.get("verify after: " + exc_summary(e), 0) + 1
         return
     after_ir = str(mod)
     changed = after_ir != before_ir
@@ -1251,7 +1263,7 @@ def gen_snippets(quick: bool):
                 yield (f"{name}({inner}(x),x)", *prog([p, ["rr", name, 4, VA]]))
                 yield (f"{name}(x,{inner}(x))", *prog([p, ["rr", name, VA, 4]]))
                 yield (f"{name}({inner}(x),y)", *prog([p, ["rr", name, 4, VB]]))
-                yield (f"{name}({inner}(x),{inner}(x))same", *prog([p, ["rr", name, 4, 4]]))
+                yield (f"{name}(x,x)same", *prog([p, ["rr", name, 4, 4]]))
                 yield (f"{name}({inner}(x),0)", *prog([p, ["zero"], ["rr", name, 4, 5]]))
                 for c in (1, -1, 2 ** 11 - 1, -2 ** 11, 2 ** 11):
                     yield (f"{name}({inner}(x),c)", *prog([p, ["li", c], ["rr", name, 4, 5]]))
